@@ -944,3 +944,145 @@ func (c *Ctx) r0118(pk *packages.Package) {
 	}
 	c.R.Floor(rule, "assignments folded into declarations", n, 2)
 }
+
+// R01.19: hoisting never moves an initializer in front of another one.
+func (c *Ctx) r0119(pk *packages.Package) {
+	const rule = "R01.19"
+	c.R.Rule(rule, "jsMinifier.hoistVars moves a destructuring item to the front of its `var` list (`var a,[b]=c` → `var[b]=c,a` saves the space after var) by swapping list elements. Initializers run in list order, so an item may only move in front of items that have no initializer: every swap `L[x], L[y] = L[y], L[x]` in hoistVars is dominated by a test of a witness — a local whose first assignment is a constant, that is updated on every path from each `….Default != nil` outcome to the next iteration of the enclosing loop, and nowhere else — either directly or through a boolean defined once from an expression over the witness. (`var a=1,[b]=[a];var c` was printed as `var[b]=[a],c,a=1`: b is taken from a before a is set; `var a=g(),{b}=h()` called h first)")
+	info := pk.TypesInfo
+	fd := c.fn(rule, pk, "jsMinifier.hoistVars")
+	if fd == nil {
+		return
+	}
+	g := c.graph(pk, fd)
+	lc := newLinCtx(c, info, g)
+	isDefaultTest := func(q *flow.Node) bool {
+		if q.Kind != flow.KTrue || q.Of == nil || q.Of.Kind != flow.KCond {
+			return false
+		}
+		s := nospace(str(q.Of.Expr))
+		return strings.HasSuffix(s, ".Default!=nil") || strings.HasPrefix(s, "nil!=") && strings.HasSuffix(s, ".Default")
+	}
+	witnessMemo := map[types.Object]bool{}
+	isWitness := func(o types.Object) bool {
+		if v, ok := witnessMemo[o]; ok {
+			return v
+		}
+		res := func() bool {
+			v, ok := o.(*types.Var)
+			if !ok || v.IsField() || v.Parent() == nil || v.Parent() == v.Pkg().Scope() {
+				return false
+			}
+			defs := lc.assign[o]
+			if len(defs) < 2 {
+				return false
+			}
+			// first (textually) assignment is a constant; all others dominated by a Default != nil outcome
+			first := defs[0]
+			for _, d := range defs {
+				if d.Pos() < first.Pos() {
+					first = d
+				}
+			}
+			if as, ok := first.Stmt.(*ast.AssignStmt); ok && len(as.Rhs) == 1 {
+				if tv, ok := info.Types[as.Rhs[0]]; !ok || tv.Value == nil {
+					return false
+				}
+			} else if first.Spec == nil {
+				return false
+			}
+			var updates []*flow.Node
+			for _, d := range defs {
+				if d == first {
+					continue
+				}
+				dom := false
+				for _, f := range g.DomFacts(d) {
+					if f.Value && f.Test.Kind == flow.KCond {
+						s := nospace(str(f.Test.Expr))
+						if strings.HasSuffix(s, ".Default!=nil") || strings.HasPrefix(s, "nil!=") && strings.HasSuffix(s, ".Default") {
+							dom = true
+						}
+					}
+				}
+				if !dom {
+					return false
+				}
+				updates = append(updates, d)
+			}
+			// every initialised item is counted: from each Default != nil outcome that dominates an update, no path to the
+			// loop head avoids the updates
+			for _, y := range g.Nodes {
+				if !isDefaultTest(y) {
+					continue
+				}
+				relevant := false
+				for _, u := range updates {
+					if g.Dominates(y, u) {
+						relevant = true
+					}
+				}
+				if !relevant {
+					continue
+				}
+				p := g.Path(flow.Search{From: []*flow.Node{y}, Goal: func(q *flow.Node) bool { return q.Kind == flow.KRange || q.Kind == flow.KExit }, Avoid: func(q *flow.Node) bool {
+					for _, u := range updates {
+						if u == q {
+							return true
+						}
+					}
+					return false
+				}})
+				if p != nil {
+					return false
+				}
+			}
+			return true
+		}()
+		witnessMemo[o] = res
+		return res
+	}
+	mentionsWitness := func(e ast.Expr) bool {
+		hit := false
+		ast.Inspect(e, func(q ast.Node) bool {
+			if id, ok := q.(*ast.Ident); ok && info.Uses[id] != nil && isWitness(info.Uses[id]) {
+				hit = true
+			}
+			return true
+		})
+		return hit
+	}
+	n := 0
+	for _, y := range g.Nodes {
+		as, ok := y.Stmt.(*ast.AssignStmt)
+		if !ok || y.Kind != flow.KStmt || len(as.Lhs) != 2 || len(as.Rhs) != 2 {
+			continue
+		}
+		if nospace(str(as.Lhs[0])) != nospace(str(as.Rhs[1])) || nospace(str(as.Lhs[1])) != nospace(str(as.Rhs[0])) {
+			continue
+		}
+		if _, isIx := as.Lhs[0].(*ast.IndexExpr); !isIx {
+			continue
+		}
+		n++
+		good := false
+		for _, f := range g.DomFacts(y) {
+			if f.Test.Kind != flow.KCond {
+				continue
+			}
+			if mentionsWitness(f.Test.Expr) {
+				good = true
+			}
+			// a boolean defined once from an expression over a witness
+			if id, ok := ast.Unparen(f.Test.Expr).(*ast.Ident); ok {
+				if o := info.Uses[id]; o != nil && len(lc.assign[o]) == 1 {
+					if d, ok := lc.assign[o][0].Stmt.(*ast.AssignStmt); ok && len(d.Rhs) == 1 && mentionsWitness(d.Rhs[0]) {
+						good = true
+					}
+				}
+			}
+		}
+		c.R.Check(good, rule, fmt.Sprintf("js.jsMinifier.hoistVars/swap %s#%d only in front of uninitialised items", stmtText(as), n), c.pos(as), "behind a test that no initializer precedes the moved item", "list items are swapped without knowing that no earlier item has an initializer: the moved initializer runs before the ones it was written after (`var a=1,[b]=[a];var c` → `var[b]=[a],c,a=1`)")
+	}
+	c.R.Floor(rule, "swaps in hoistVars", n, 3)
+}
